@@ -10,12 +10,22 @@ SCHEDS = [None, lambda r: "defer:%d" % r.randint(0, 999), lambda r: "mixed:%d" %
 
 
 def add_null_builds(rng, L):
-    """After some builds repeat the same build immediately (no external change): the repeat must execute nothing."""
+    """After some builds repeat the same build immediately (no external change) - in the same engine or, with a database, in a
+    NEW engine over the same database: the repeat must execute nothing."""
     out = []
+    usedb = L[0] == "db 1"
     for l in L:
         out.append(l)
-        if l.startswith("build") and rng.random() < 0.4:
-            out.append(l + " #null")
+        if l.startswith("build"):
+            x = rng.random()
+            if x < 0.3:
+                out.append(l + " #null")
+            elif x < 0.55 and usedb:
+                out.append("restart")
+                out.append(l + " #null")
+                if rng.random() < 0.5:
+                    out.append("restart")
+                    out.append(l + " #null")
     return out
 
 
@@ -32,7 +42,7 @@ def oracle_null(lines, builds):
     return bad
 
 
-def one_history(chk, sess, lines, tag, origin):
+def one_history(chk, sess, lines, tag, origin, model=True):
     r = sess.run([l.replace(" #null", "") for l in lines], tag)
     if r["rc"] != 0:
         chk.violation("driver-crash", "engine_driver exited with status %s" % r["rc"], dict(scenario=lines, stderr=r["err"][-2000:], origin=origin), found_input=True)
@@ -49,6 +59,10 @@ def one_history(chk, sess, lines, tag, origin):
         rr = sess.run([l.replace(" #null", "") for l in small], tag + "-min")
         chk.violation(bad[0][0], bad[0][1], dict(scenario=small, original_scenario=lines, implementation=rr["out"], oracle="shadow epochs", origin=origin),
                       found_input=True, broken="reported reason / at-most-once on the implementation")
+    if not model:       # cancelled builds are schedule dependent: judged by the oracle only (the model has no cancellation in its extracted form)
+        nexec = sum(1 for x in r["out"] if x.startswith("create "))
+        chk.count(("c", tag) if any("cancelled" in x for x in r["out"]) else None, n=max(1, nexec))
+        return ok
     mo = sess.model_run(r)
     a, b = E.canon_pair(r["out"], mo)
     if a != b and ok:
@@ -68,10 +82,34 @@ def one_history(chk, sess, lines, tag, origin):
     return ok
 
 
+CORPUS = [
+    # a dependency re-runs to an IDENTICAL value (key 3: payload mod 2), then a new engine over the database: nothing may run
+    # (a realistic breaking change: the database write skipped when the value did not change, leaving the old builtAt stored)
+    ["db 1", "rule 0 sig=0 obs=1", "rule 3 sig=0 obs=0 req=0", "rule 4 sig=0 obs=0 req=3", "set 0 1", "build 4", "set 0 2", "build 4", "set 0 3", "build 4",
+     "restart", "build 4 #null", "restart", "build 4 #null"],
+    ["db 1", "rule 0 sig=0 obs=1", "rule 1 sig=0 obs=1", "rule 6 sig=0 obs=0 req=0 follow=1", "rule 7 sig=0 obs=0 req=6", "set 0 1", "set 1 1", "build 7", "set 1 2", "build 7", "build 7 #null",
+     "set 0 2", "build 7", "restart", "build 7 #null"],
+]
+
+
+def cancel_family(chk, sess, n):
+    """The fifth admissible reason: a rule whose previous execution was interrupted by a cancelled build re-runs (Forced) - and ONLY such a rule."""
+    import props.c05 as c05
+    for i in range(n):
+        rng = random.Random(chk.rng.random())
+        seed = rng.random()
+        for sched, cancel in c05.cancel_variants(rng, 2):
+            L = [l for l in c05.make_history(random.Random(seed), sched, cancel) if not l.startswith("fresh ")]
+            one_history(chk, sess, L, "c%d" % (i % 20), "cancel family seed=%d index=%d %s %s" % (chk.seed, i, sched, cancel), model=False)
+
+
 def run(chk):
     sess = K.Session(chk)
     chk.proof_gate()
     n = chk.n(150, 6000)
+    for i, L in enumerate(CORPUS):
+        one_history(chk, sess, L, "corpus%d" % i, "corpus")
+    cancel_family(chk, sess, chk.n(40, 1500))
     for i in range(n):
         rng = random.Random(chk.rng.random())
         L = add_null_builds(rng, E.gen_history(rng, sched=SCHEDS[i % 3], nops=(3, 12)))
